@@ -61,6 +61,12 @@ def hasUnsubRet (evs : List (Ev N)) : Bool := evs.any (fun e => match e with | .
 
 /-! ## Variable / Event: the notes are `(previous, new)` pairs forming a chain from the zero value -/
 
+/-- `xs` occurs in `ys` as a contiguous run. -/
+def isInfix {α : Type} [DecidableEq α] (xs ys : List α) : Bool :=
+  match ys with
+  | [] => xs.isEmpty
+  | y :: r => xs.isPrefixOf (y :: r) || isInfix xs r
+
 section Var
 variable {V : Type} [DecidableEq V]
 
@@ -92,11 +98,10 @@ def pairs : List V → List (V × V)
   | _ => []
 
 /-- Exactly once, in order, against the variable's whole value history `h` (values it took, oldest
-first): after the optional initial note the notes are a contiguous run of `pairs h`. -/
-def isInfix (xs ys : List (V × V)) : Bool :=
-  match ys with
-  | [] => xs.isEmpty
-  | y :: r => xs.isPrefixOf (y :: r) || isInfix xs r
+first): after the optional initial note the notes are a contiguous run of `pairs h`
+(see `isInfix` below). -/
+def runOfHistory (ns : List (V × V)) (h : List V) : Bool :=
+  isInfix ns (pairs h) || isInfix (ns.drop 1) (pairs h)
 
 end Var
 
@@ -115,6 +120,13 @@ def sameSet (a b : List Nat) : Bool := a.all (b.contains ·) && b.all (a.contain
 
 def setOk (active : Bool) (final : List Nat) (evs : List (Ev Mut)) : Bool :=
   closed evs && noneAfterUnsub evs && (!active || sameSet (foldNotes (notes evs)) final)
+
+/-- Exactly once, in order, against a reference subscription that was registered before every write
+and never unsubscribed: after the optional initial note the notes are a contiguous run of what
+the reference saw — a suffix of it if the subscription is still active. -/
+def runOfReference (active : Bool) (ns ref : List Mut) : Bool :=
+  if active then ns.isSuffixOf ref || (ns.drop 1).isSuffixOf ref
+  else isInfix ns ref || isInfix (ns.drop 1) ref
 
 def setWhy (active : Bool) (final : List Nat) (evs : List (Ev Mut)) : String :=
   if !exclusive evs then "reject overlap"
